@@ -5,6 +5,7 @@ import (
 	"fmt"
 	"os"
 	"path/filepath"
+	"reflect"
 	"strings"
 	"sync"
 	"sync/atomic"
@@ -122,6 +123,35 @@ func workload(p *gen.Program, salt string, k int) result {
 			}
 			x.WriteString(rt.Strings(rr.Answers[0]) + ";")
 			r.atoms += 2
+		}
+	}
+	// the host side of an answer: Scan into a struct type that no interpreter of this process has scanned into
+	// before this round (so whatever the library keeps per destination type is built by the concurrent
+	// interpreters at the same moment), then again into the same type
+	typ := reflect.StructOf([]reflect.StructField{
+		{Name: "X", Type: reflect.TypeOf(0)},
+		{Name: "Y", Type: reflect.TypeOf("")},
+		{Name: "Zs", Type: reflect.TypeOf([]int{}), Tag: `prolog:"Z"`},
+		{Name: "W", Type: reflect.TypeOf((*interface{})(nil)).Elem()},
+		{Name: "Pad" + strings.ReplaceAll(salt, "_", "x"), Type: reflect.TypeOf(0)},
+	})
+	for rep := 0; rep < 2; rep++ {
+		sols, err := i.P.Query(fmt.Sprintf("X = %d, Y = own_%s_%d, Z = [%d, 2, 3], W = w.", k+1, salt, k, k+7))
+		if err != nil {
+			r.err = fmt.Errorf("interpreter %d: Query: %v", k, err)
+			return r
+		}
+		dst := reflect.New(typ)
+		if !sols.Next() {
+			r.err = fmt.Errorf("interpreter %d: no answer to a query that has one alone: %v", k, sols.Err())
+			return r
+		}
+		err = sols.Scan(dst.Interface())
+		sols.Close()
+		want := fmt.Sprintf("{%d own_%s_%d [%d 2 3]", k+1, salt, k, k+7)
+		if got := fmt.Sprintf("%v", dst.Elem().Interface()); err != nil || !strings.HasPrefix(got, want+" ") || dst.Elem().Field(3).IsNil() {
+			r.err = fmt.Errorf("interpreter %d: Scan into a struct gave %s (err %v), the answer is %s w 0}", k, got, err, want)
+			return r
 		}
 	}
 	r.extra = x.String() + "|" + i.Out.String()
